@@ -160,4 +160,92 @@ Proof.
     destruct (fr_step _ _ _ _ _ _ Hfr1' Hsub1 Hfr12 Hsub12). exists s2, (id :: concat (fa ++ fc2 :: fb)). auto.
 Qed.
 
+(* ---------------------------------------------------------------- _Node.delete *)
+
+Lemma del_sim : forall fuel h, (h <= fuel)%nat -> forall (isroot : bool) n key exact s id fp n' o,
+  wfn (if isroot then root_lo n else t_min t) h n ->
+  (isroot = false -> (t_min t < length (n_elts n))%nat) ->
+  ksorted (elements n) ->
+  rep s id n fp -> own s id ->
+  del t fuel isroot n key exact = Ok (n', o) ->
+  exists s' fp', s_del t fuel isroot s id key exact = Ok (s', o) /\
+     rep s' id n' fp' /\ sub s fp fp' /\ fr s s' fp /\ own s' id.
+Proof.
+  induction fuel as [|f IH]; intros h Hf isroot n key exact s id fp n' o Hw Hnm Hs Hr Hop Hv.
+  { pose proof (wfn_pos t Ht _ _ _ Hw). lia. }
+  pose proof (node_es_sorted t Ht _ _ _ Hw Hs) as Hes.
+  pose proof (wfn_len t Ht _ _ _ Hw) as Hlen.
+  destruct n as [lf es ks]. cbn [n_elts] in *. cbn [del] in Hv. cbn [s_del].
+  destruct (rep_root _ _ _ _ _ _ Hr) as (sn & Hsn & Hsl & Hse).
+  rewrite (sget_some _ _ _ Hsn). cbn [bind]. rewrite Hse, Hsl.
+  assert (Hmn : (if isroot then Ok false else is_minimal t (Node lf es ks)) = Ok false).
+  { destruct isroot; [reflexivity|]. specialize (Hnm eq_refl). unfold is_minimal. cbn [n_elts].
+    destruct (Nat.ltb_spec (length es) (t_min t)); [lia|]. destruct (Nat.eqb_spec (length es) (t_min t)); [lia|reflexivity]. }
+  rewrite Hmn in Hv. cbn [bind] in Hv.
+  assert (Hmn' : (if isroot then Ok false else is_minimal_l t (length es)) = Ok false).
+  { destruct isroot; [reflexivity|]. rewrite is_minimal_eq in Hmn. exact Hmn. }
+  rewrite Hmn'. cbn [bind].
+  assert (Hrec : forall h', h = S h' -> drec_sim (fun c k ex => del t f false c k ex) (fun s c k ex => s_del t f false s c k ex) h').
+  { intros h' -> s0 cid ck fc k ex ck' o0 Hc Hcl Hcs Hrc Hoc Hd.
+    apply (IH h' ltac:(lia) false ck k ex s0 cid fc ck' o0); auto. }
+  assert (Hne : lf = false -> (1 <= length es)%nat).
+  { intros ->. unfold root_lo in Hlen. cbn [n_leaf] in Hlen. destruct isroot; [cbn in Hlen; lia|]. specialize (Hnm eq_refl). lia. }
+  cbn zeta in Hv. cbn zeta.
+  destruct (search_cases key es Hes) as [(ea & v & eb & -> & Hsr & Hlt & Hgt)|(ea & eb & -> & Hsr & Hlt & Hgt)];
+    rewrite Hsr in Hv |- *; cbn [bind] in Hv |- *.
+  - (* the key is in this node *)
+    rewrite split_at_app in Hv |- * by reflexivity. cbn [bind] in Hv |- *.
+    destruct (exact_mismatch exact (key, v)).
+    { inversion Hv; subst n' o. exists s, fp. split; [reflexivity|]. split; [assumption|]. split; [apply sub_refl|]. split; [apply fr_refl|assumption]. }
+    pose proof Hw as Hw0.
+    apply wfn_inv in Hw as (Hb & [(-> & -> & ->)|(-> & h' & -> & Hk & Hall)]).
+    + (* leaf *)
+      inversion Hv; subst n' o.
+      destruct (write_elts_sim c s id true _ [] fp sn (ea ++ eb) Hr Hsn Hop) as (Hr' & Hfr' & Hop').
+      eexists _, fp. split; [reflexivity|]. split; [exact Hr'|]. split; [apply sub_refl|]. auto.
+    + (* internal: replace by the least successor *)
+      destruct (node_decomp2 (ea ++ (key, v) :: eb) ks (length ea) Hk) as (ea' & pe & eb' & ka & cl & cr & kb & He & -> & H1 & H2 & H3).
+      { rewrite app_length. cbn. lia. }
+      destruct (app_eq_len _ _ _ _ He H1) as (-> & Hq). inversion Hq; subst pe eb'. clear Hq He H1.
+      apply Forall_mid in Hall as (Hka & Hclw & Hkb). inversion Hkb; subst. rename H1 into Hcrw. rename H4 into Hkb'.
+      assert (Eks : ka ++ cl :: cr :: kb = (ka ++ [cl]) ++ cr :: kb) by (now rewrite <- app_assoc).
+      assert (Ees : ea ++ (key, v) :: eb = (ea ++ [(key, v)]) ++ eb) by (now rewrite <- app_assoc).
+      assert (Hi : S (length ea) = length (ka ++ [cl])) by (rewrite app_length; cbn; lia).
+      rewrite Eks, Ees, Hi in *.
+      destruct (rep_open c _ _ _ _ _ _ _ _ Hr Hop) as (ia & cid & ib & fa & fc & fb & Hopen & -> & _).
+      pose proof Hopen as (n0 & Hn0 & Hcn0 & Hln0 & Hen0 & Hkn0 & Hra0 & Hrc0 & Hrb0 & Hlia0 & Hnd0).
+      assert (n0 = sn) by congruence. subst n0.
+      rewrite Hkn0. rewrite <- Hlia0. rewrite split_at_app by reflexivity. rewrite Hlia0.
+      rewrite split_at_app in Hv by reflexivity. cbn [bind] in Hv |- *.
+      assert (Hm : (1 <= t_min t)%nat) by (unfold t_min; lia).
+      destruct (minimum_spec t Ht h' _ cr Hcrw Hm) as (succ & rest & Hmin & Hcr). rewrite Hmin in Hv. cbn [bind] in Hv.
+      rewrite (minimum_sim s (S f) h' _ cr cid fc succ Hcrw ltac:(lia) Hrc0 Hmin). cbn [bind].
+      assert (H2' : length (ka ++ [cl]) = length (ea ++ [(key, v)])) by (rewrite !app_length; cbn; lia).
+      destruct (kid_sorted _ _ _ _ _ H2' H3 Hs) as (_ & _ & _ & _ & Hbound).
+      assert (Hsin : In succ (elements cr)) by (rewrite Hcr; now left).
+      destruct (Hbound succ Hsin) as (Hslt & Hsgt).
+      assert (Hne1 : (1 <= length ((ea ++ [(key, v)]) ++ eb))%nat) by (rewrite !app_length; cbn; lia).
+      destruct (del_down t (fun c0 k ex => del t f false c0 k ex) (Node false ((ea ++ [(key, v)]) ++ eb) ((ka ++ [cl]) ++ cr :: kb))
+                  (fst succ) (length (ka ++ [cl])) None) as [(n1 & o1)| |] eqn:Ed; cbn [bind] in Hv; try discriminate.
+      destruct (del_down_sim _ _ _ h' (fst succ) None _ _ _ cr kb s id _ n1 o1 (Hrec h' eq_refl) H2' H3 Hw0 Hne1 Hs Hslt Hsgt Hr Hop Ed)
+        as (s1 & fp1 & Hs1 & Hr1 & Hsub1 & Hfr1 & Hop1).
+      rewrite Hs1. cbn [bind].
+      destruct o1; try discriminate.
+      destruct (replace_key (S f) n1 key e) as [(n2 & old)| |] eqn:Erk; cbn [bind] in Hv; try discriminate.
+      inversion Hv; subst n' o.
+      destruct (replace_key_sim key e s1 (S f) id n1 fp1 n2 old Hr1 Hop1 Erk) as (s2 & fp2 & Hs2 & Hr2 & Hsub2 & Hfr2 & Hop2).
+      rewrite Hs2. cbn [bind].
+      destruct (fr_step _ _ _ _ _ _ Hfr1 Hsub1 Hfr2 Hsub2).
+      exists s2, fp2. auto.
+  - (* the key is not in this node *)
+    pose proof Hw as Hw0.
+    apply wfn_inv in Hw as (Hb & [(-> & -> & ->)|(-> & h' & -> & Hk & Hall)]).
+    + inversion Hv; subst n' o. exists s, fp. split; [reflexivity|]. split; [assumption|]. split; [apply sub_refl|]. split; [apply fr_refl|assumption].
+    + destruct (node_decomp1 (ea ++ eb) ks (length ea) Hk) as (ea' & eb' & ka & ck & kb & He & -> & H1 & H2 & H3).
+      { rewrite app_length. lia. }
+      destruct (app_eq_len _ _ _ _ He H1) as (-> & ->).
+      rewrite <- H2 in Hv |- *.
+      apply (del_down_sim _ _ _ h' key exact ea eb ka ck kb s id fp n' o (Hrec h' eq_refl) H2 H3 Hw0 (Hne eq_refl) Hs Hlt Hgt Hr Hop Hv).
+Qed.
+
 End SIM3.
